@@ -171,12 +171,12 @@ fn load_sources(thorough: bool) -> Vec<Source> {
     ] {
         add(f, true);
     }
-    for f in ["fonts/opentype/Klei.otf", "fonts/opentype/OpenSans-Regular.ttf", "fonts/noto/NotoSansThai-Regular.ttf", "fonts/opentype/cff2/SourceSans3-Instance.256.otf", "fonts/opentype/TerminusTTF-4.47.0.ttf", "fonts/noto/NotoNaskhArabic-Regular.ttf"] {
+    for f in ["fonts/opentype/Klei.otf", "fonts/opentype/OpenSans-Regular.ttf", "fonts/noto/NotoSansThai-Regular.ttf", "fonts/opentype/cff2/SourceSans3-Instance.256.otf", "fonts/opentype/TerminusTTF-4.47.0.ttf", "fonts/noto/NotoNaskhArabic-Regular.ttf", "fonts/opentype/SourceCodePro-Regular.otf"] {
         add(f, false);
     }
     if thorough {
         for f in [
-            "fonts/opentype/SourceCodePro-Regular.otf",
+            "fonts/noto/NotoSansSinhala-Regular.ttf",
             "fonts/noto/NotoSansJP-Regular.otf",
             "fonts/arabic/amiri-regular.ttf",
             "fonts/noto/NotoSansDevanagari-Regular.ttf",
@@ -262,6 +262,75 @@ fn glyph_lists(src: &Source, thorough: bool) -> Vec<Vec<u16>> {
                         l.extend(mac_glyphs.iter().take(k));
                         if l.len() == total {
                             out.push(l);
+                        }
+                    }
+                }
+                // character neighbourhoods: windows of consecutively encoded characters. Every ordered duplicate-free
+                // selection from a window (plus one glyph that no retained character maps to), on its own and together
+                // with an astral glyph (forces a format 12 output) or a non-Mac-Roman BMP glyph (forces format 4): the cmap
+                // writers group characters by code adjacency AND glyph id adjacency, and both orders and gaps occur here.
+                {
+                    let chars: Vec<(u32, u16)> = map.iter().map(|(c, g)| (*c, *g)).collect();
+                    let win = 5usize;
+                    let mut windows: Vec<Vec<u16>> = Vec::new();
+                    let mut want_mac = true;
+                    let mut i = 0;
+                    while i + win <= chars.len() && windows.len() < if thorough { 2 } else { 1 } + 1 {
+                        let w = &chars[i..i + win];
+                        let consecutive = w.windows(2).all(|p| p[1].0 == p[0].0 + 1);
+                        let gl: Vec<u16> = w.iter().map(|x| x.1).collect();
+                        let distinct = gl.iter().all(|g| *g != 0) && (0..win).all(|a| (a + 1..win).all(|b| gl[a] != gl[b]));
+                        let is_mac = char::from_u32(w[0].0).map_or(false, allsorts::macroman::is_macroman) && w[0].0 >= 0x41;
+                        if consecutive && distinct && (is_mac == want_mac) && w[0].0 >= 0x41 {
+                            windows.push(gl);
+                            want_mac = !want_mac;
+                            i += win;
+                        } else {
+                            i += 1;
+                        }
+                    }
+                    let astral_g: Option<u16> = map.iter().find(|(c, g)| **c > 0xFFFF && **g != 0).map(|(_, g)| *g);
+                    let bmp_g: Option<u16> = map.iter().find(|(c, g)| **c > 0x2000 && **c <= 0xFFFF && **g != 0 && char::from_u32(**c).map_or(false, |ch| !allsorts::macroman::is_macroman(ch))).map(|(_, g)| *g);
+                    let gap_g: Option<u16> = unmapped.first().copied();
+                    let max_sel = if thorough { 4 } else { 3 };
+                    for w in &windows {
+                        let mut uni: Vec<u16> = w.clone();
+                        if let Some(g) = gap_g {
+                            if !uni.contains(&g) {
+                                uni.push(g);
+                            }
+                        }
+                        let mut sels: Vec<Vec<u16>> = Vec::new();
+                        fn rec(cur: &mut Vec<u16>, uni: &[u16], max: usize, out: &mut Vec<Vec<u16>>) {
+                            if cur.len() >= 2 {
+                                out.push(cur.clone());
+                            }
+                            if cur.len() == max {
+                                return;
+                            }
+                            for g in uni {
+                                if !cur.contains(g) {
+                                    cur.push(*g);
+                                    rec(cur, uni, max, out);
+                                    cur.pop();
+                                }
+                            }
+                        }
+                        rec(&mut Vec::new(), &uni, max_sel, &mut sels);
+                        for sel in sels {
+                            let mut l = vec![0u16];
+                            l.extend(sel.iter());
+                            out.push(l.clone());
+                            for extra in [astral_g, bmp_g].into_iter().flatten() {
+                                if !l.contains(&extra) {
+                                    // at every position: in front, between any two selected glyphs, at the end
+                                    for pos in 1..=l.len() {
+                                        let mut a = l.clone();
+                                        a.insert(pos, extra);
+                                        out.push(a);
+                                    }
+                                }
+                            }
                         }
                     }
                 }
